@@ -51,7 +51,7 @@ def model_term(t):
         return IRI(t[1])
     if t[0] == "bnode":
         return BNode(t[1])
-    return Literal("v", t[1])
+    return Literal(t[2] if len(t) > 2 else "v", t[1])
 
 
 def model_triple(s, p, o):
@@ -153,7 +153,17 @@ def _path_same(a, b):
                     if sx.plain() != sy.plain():
                         return False
                     continue
-                return False
+                # keys with symbolic characters: every key went through the registry-based hash, so its equality with the other
+                # keys of the state is already decided by the path condition - ask the solver which way
+                e = sx.eq_expr(sy)
+                if e is False:
+                    return False
+                if e is True:
+                    continue
+                from symx import cur
+                if cur().sat(z3.Not(e)):
+                    return False
+                continue
             if x != y:
                 return False
             continue
@@ -741,6 +751,80 @@ class ClassAggregationSymbolicCount(Ob):
         return None if _norm(result["c_shapes"]) == _norm(want) else "class profile after aggregating an instance with %r values: %r, expected %r" % (a["c"], result["c_shapes"], want)
 
 
+class WholeProfile(Ob):
+    """Both passes of the real pipeline core (InstanceTracker.track_instances, then ClassProfiler.profile_classes) on a document of n triples
+    whose node and class IRIs are symbolic (drawn from a 2-letter alphabet, so the solver explores every aliasing pattern: reflexive links,
+    a node typed twice, a class that is also an instance, two triples about the same or different nodes) and whose predicates are a symbolic
+    choice between the instantiation property and an ordinary property.  The resulting class profile and class counts must equal those of
+    the reference profiler on the same triples."""
+    functions = ["InstanceTracker.track_instances/_yield_relevant_triples", "BaseAnnotator + AllClasesMode (all methods)", "ClassProfiler.profile_classes/_init_class_counts_and_shape_dict/"
+                 "_adapt_instances_dict/_build_shape_of_instances/_yield_relevant_triples/_build_class_profile/_clean_class_profile",
+                 "DirectFeaturesStrategy / IncludeReverseFeaturesStrategy (all methods)", "AbstractFeatureDirectionStrategy (all methods)"]
+
+    def __init__(self, n, inverse, okinds):
+        self.n, self.inverse, self.okinds = n, inverse, okinds
+        self.name = "whole_profile/n=%d/%s/objects=%s" % (n, "inverse" if inverse else "direct", "".join(k[0] for k in okinds))
+
+    def build(self, ex):
+        def two(name, a, b):
+            c = ex.fresh_int(name, 0, 0x10FFFF)
+            ex.add(z3.Or(c == ord(a), c == ord(b)))
+            return c
+        triples = []
+        for i, ok in enumerate(self.okinds):
+            s = ("iri", sstr("http://ex.org/n/", [two("s%d" % i, "a", "b")]))
+            pred = sstr("http://ex.org/", [two("p%d" % i, "t", "p")])        # .../t is the instantiation property, .../p an ordinary one
+            if ok == "node":
+                o = ("iri", sstr("http://ex.org/n/", [two("o%d" % i, "a", "b")]))
+            elif ok == "class":
+                o = ("iri", sstr("http://ex.org/C", [two("o%d" % i, "1", "2")]))
+            elif ok == "bnode":
+                o = ("bnode", sstr("_:", [two("o%d" % i, "a", "b")]))
+            else:
+                # a plain literal whose lexical form may coincide with the IRI of a node (it must stay a literal)
+                o = ("lit", XSD_STRING, sstr("http://ex.org/n/", [two("o%d" % i, "a", "b")]))
+                ex.add(as_z3(neg(eq(pred, "http://ex.org/t"))))       # a literal object of the instantiation property is outside the domain
+            triples.append((s, pred, o))
+        for i in range(len(triples)):
+            for j in range(i + 1, len(triples)):
+                a, b = triples[i], triples[j]
+                if a[2][0] == b[2][0] and a[2][0] != "lit":
+                    ex.add(z3.Not(z3.And(as_z3(eq(a[0][1], b[0][1])), as_z3(eq(a[1], b[1])), as_z3(eq(a[2][1], b[2][1])))))     # duplicate-free graph
+        return dict(triples=triples)
+
+    def call(self, a):
+        from shexer.core.instances.instance_tracker import InstanceTracker
+        from shexer.core.profiling.class_profiler import ClassProfiler
+        model = [model_triple(*t) for t in a["triples"]]
+
+        class Stub:
+            def yield_triples(self):
+                return iter(model)
+        tr = InstanceTracker(target_classes=None, triples_yielder=Stub(), instantiation_property="http://ex.org/t", all_classes_mode=True, track_hierarchies=False)
+        inst = tr.track_instances()
+        prof = ClassProfiler(triples_yielder=Stub(), instances_dict=inst, instantiation_property_str="http://ex.org/t", inverse_paths=self.inverse)
+        profile, counts, _ = prof.profile_classes(verbose=False)
+        return dict(profile=profile, counts=counts)
+
+    def _ref(self, a):
+        from . import rows as R
+        triples = list(a["triples"])
+        instances, feats = R.refprof(triples, inverse=self.inverse, inst_prop="http://ex.org/t")
+        return R.class_profile(instances, feats, lambda n: 1, inverse=self.inverse, inst_prop="http://ex.org/t")
+
+    def bad(self, a, result):
+        profile, counts = self._ref(a)
+        return neg(_and([states_equal(result["profile"], profile), states_equal(result["counts"], counts)]))
+
+    def check(self, a, result):
+        profile, counts = self._ref(a)
+        if _norm(result["counts"]) != _norm(dict(counts)):
+            return "class counts %r, reference %r for %r" % (result["counts"], dict(counts), a["triples"])
+        if _norm(result["profile"]) != _norm(profile):
+            return "class profile %r, reference %r for %r" % (result["profile"], profile, a["triples"])
+        return None
+
+
 class CardinalityMapping(Ob):
     """The pure cardinality mappings on a symbolic integer cardinality (unbounded): ShExC '{k}' (nothing for 1 on a constraint line) and
     SHACL minCount = maxCount = k."""
@@ -865,6 +949,12 @@ def obligations(prop, tier):
         for inverse in (False, True):
             for pre in ("empty", "some"):
                 out.append(ClassAggregationSymbolicCount(inverse, pre))
+        combos = [("class", "node"), ("class", "class", "node"), ("class", "node", "node"), ("class", "node", "lit"), ("class", "class", "bnode")]
+        if tier != "quick":
+            combos += [("class", "class", "node", "node"), ("class", "node", "node", "lit"), ("node", "node", "class", "class"), ("class", "bnode", "node", "lit")]
+        for inverse in (False, True):
+            for ok in combos:
+                out.append(WholeProfile(len(ok), inverse, ok))
     if prop == "C11":
         out.append(CardinalityMapping(True))
         out.append(CardinalityMapping(False))
